@@ -87,7 +87,7 @@ type workerRun struct {
 
 func runWorkerOnce(env *Env, args []string) (*workerRun, int, error) {
 	cmd := exec.Command(env.Self, args...)
-	cmd.Env = append(os.Environ(), "GOMAXPROCS=1", "GOGC=1000", "GOTRACEBACK=single")
+	cmd.Env = append(os.Environ(), "GOMAXPROCS=1", "GOGC=400", "GOTRACEBACK=single")
 	stdout, err := cmd.StdoutPipe()
 	if err != nil {
 		return nil, 0, err
@@ -375,6 +375,29 @@ func ReplayDesc(env *Env, v *Violation) (keys map[string]*Violation, status stri
 	return keys, "ok", desc
 }
 
+// ContextReplay re-runs the worker that found v from its first case up to and
+// including v's case, so that process-global state left by earlier cases is
+// recreated deterministically.
+func ContextReplay(env *Env, v *Violation) (keys map[string]*Violation, status string) {
+	work := filepath.Join(env.Root, ".work")
+	region := filepath.Join(work, fmt.Sprintf("%s-ctxreplay-%d.cur", env.PropID, os.Getpid()))
+	defer os.Remove(region)
+	args := []string{"-worker", "-prop", env.PropID, "-tier", env.Tier, "-idx", strconv.Itoa(v.Shard), "-n", strconv.Itoa(v.NShards), "-seed", strconv.Itoa(v.Seed),
+		"-deadline", strconv.FormatInt(time.Now().Add(time.Hour).Unix(), 10), "-region", region,
+		"-until", fmt.Sprintf("%d:%d:%s", v.PhaseIx, v.Size, joinInts(v.Choices))}
+	wr, code, _ := runWorkerOnce(env, args)
+	keys = map[string]*Violation{}
+	if wr != nil {
+		for _, x := range wr.viols {
+			keys[x.Key] = x
+		}
+	}
+	if code != 0 {
+		return keys, fmt.Sprintf("exit %d", code)
+	}
+	return keys, "ok"
+}
+
 func firstLines(s string, n int) string {
 	l := strings.Split(s, "\n")
 	if len(l) > n {
@@ -437,6 +460,21 @@ func Finish(env *Env, p *Prop, res *Result, start time.Time) int {
 			}
 			if last != nil && last.Detail.Program != "" {
 				v.Detail = last.Detail
+			}
+			if !ok && p.ContextReplay && v.Kind != "hang" && v.Kind != "crash" {
+				// not reproducible alone: recreate the process history of its worker
+				ok = true
+				for rep := 0; rep < 2; rep++ {
+					keys, _ := ContextReplay(env, v)
+					if _, found := keys[v.Key]; !found {
+						ok = false
+					}
+				}
+				if ok {
+					v.Context = true
+					v.Detail.Note += " [depends on the evaluations that preceded it in the same process: replay re-runs worker " +
+						fmt.Sprintf("%d/%d", v.Shard, v.NShards) + " up to this case]"
+				}
 			}
 			confirmed++
 			if !ok {
